@@ -17,6 +17,7 @@ package httpserver
 import (
 	"bytes"
 	"crypto/sha256"
+	"crypto/tls"
 	"crypto/x509"
 	"encoding/pem"
 	"fmt"
@@ -466,9 +467,10 @@ func (r *replacer) getSubstitution(key string) string {
 		if r.request.TLS != nil {
 			if name, err := caskettls.GetSupportedCipherName(r.request.TLS.CipherSuite); err == nil {
 				return name
-			} else {
-				return "UNKNOWN" // this should never happen, but guard in case
 			}
+			// the suites of TLS 1.3 are not configurable and so not in
+			// casket's table: they go by their standard names
+			return tls.CipherSuiteName(r.request.TLS.CipherSuite)
 		}
 		return r.emptyValue
 	case "{tls_client_escaped_cert}":
